@@ -149,7 +149,7 @@ class Kernel(object):
         if self.spawn_faults:
             f = self.spawn_faults.pop(0)
             if f is not None:
-                self.rec("spawnfail", r=type(f).__name__)
+                self.rec("spawnfail", r="OSError" if isinstance(f, OSError) else type(f).__name__)
                 raise f
         pid = self.nextpid
         self.nextpid += 1
